@@ -196,6 +196,11 @@ func (c Collection) characterizeAndFlatten(nonStaticTypes map[typeCode]bool) ([]
 	afterInit := make([]*provider, 0, len(c.contents))
 	afterInvoke := make([]*provider, 0, len(c.contents))
 
+	// c is a copy of the Collection but shares its contents array with the caller's:
+	// work on a private array so that the re-arrangements below (NonFinal, replacement
+	// of generated providers) do not write into a collection that is supposed to be immutable
+	c.contents = append([]*provider(nil), c.contents...)
+
 	err := c.handleReplaceByName()
 	if err != nil {
 		return nil, nil, err
